@@ -17,7 +17,7 @@ Theorem C05_W_override :
        WeibullDistribution_pdf s a b g = WeibullDistribution_pdf (W_with s a b g) None None None /\
        WeibullDistribution_draw_sample s a b g =
        WeibullDistribution_draw_sample (W_with s a b g) None None None.
-Proof. exact W_override. Qed.
+Proof. exact (@W_override). Qed.
 
 (* Weibull: cdf, icdf, pdf and sampling call the same scipy family with one and the same parameter list (hence mutual consistency reduces to scipy's own cdf/ppf/pdf contract) *)
 Theorem C05_W_one_map :
@@ -36,7 +36,7 @@ Theorem C05_W_one_map :
        c_method (WeibullDistribution_icdf s a b g) = "ppf" /\
        c_method (WeibullDistribution_pdf s a b g) = "pdf" /\
        c_method (WeibullDistribution_draw_sample s a b g) = "rvs".
-Proof. exact W_same_map. Qed.
+Proof. exact (@W_same_map). Qed.
 
 (* LogNormal: passing parameter values explicitly == an instance constructed with them (every subset, every method); the definitions are GENERATED from distributions.py *)
 Theorem C05_LN_override :
@@ -46,7 +46,7 @@ Theorem C05_LN_override :
        LogNormalDistribution_pdf RN s m sg = LogNormalDistribution_pdf RN (LN_with s m sg) None None /\
        LogNormalDistribution_draw_sample RN s m sg =
        LogNormalDistribution_draw_sample RN (LN_with s m sg) None None.
-Proof. exact LN_override. Qed.
+Proof. exact (@LN_override). Qed.
 
 (* LogNormal: cdf, icdf, pdf and sampling call the same scipy family with one and the same parameter list (hence mutual consistency reduces to scipy's own cdf/ppf/pdf contract) *)
 Theorem C05_LN_one_map :
@@ -65,7 +65,7 @@ Theorem C05_LN_one_map :
        c_method (LogNormalDistribution_icdf RN s m sg) = "ppf" /\
        c_method (LogNormalDistribution_pdf RN s m sg) = "pdf" /\
        c_method (LogNormalDistribution_draw_sample RN s m sg) = "rvs".
-Proof. exact LN_same_map. Qed.
+Proof. exact (@LN_same_map). Qed.
 
 (* Normal: passing parameter values explicitly == an instance constructed with them (every subset, every method); the definitions are GENERATED from distributions.py *)
 Theorem C05_N_override :
@@ -74,7 +74,7 @@ Theorem C05_N_override :
        NormalDistribution_icdf s m sg = NormalDistribution_icdf (N_with s m sg) None None /\
        NormalDistribution_pdf s m sg = NormalDistribution_pdf (N_with s m sg) None None /\
        NormalDistribution_draw_sample s m sg = NormalDistribution_draw_sample (N_with s m sg) None None.
-Proof. exact N_override. Qed.
+Proof. exact (@N_override). Qed.
 
 (* Normal: cdf, icdf, pdf and sampling call the same scipy family with one and the same parameter list (hence mutual consistency reduces to scipy's own cdf/ppf/pdf contract) *)
 Theorem C05_N_one_map :
@@ -92,7 +92,7 @@ Theorem C05_N_one_map :
        c_method (NormalDistribution_icdf s m sg) = "ppf" /\
        c_method (NormalDistribution_pdf s m sg) = "pdf" /\
        c_method (NormalDistribution_draw_sample s m sg) = "rvs".
-Proof. exact N_same_map. Qed.
+Proof. exact (@N_same_map). Qed.
 
 (* ExponentiatedWeibull: passing parameter values explicitly == an instance constructed with them (every subset, every method); the definitions are GENERATED from distributions.py *)
 Theorem C05_EW_override :
@@ -105,7 +105,7 @@ Theorem C05_EW_override :
        ExponentiatedWeibullDistribution_draw_sample RN (EW_with s a b d) None None None /\
        ExponentiatedWeibullDistribution__get_scipy_parameters RN s a b d =
        ExponentiatedWeibullDistribution__get_scipy_parameters RN (EW_with s a b d) None None None.
-Proof. exact EW_override. Qed.
+Proof. exact (@EW_override). Qed.
 
 (* ExponentiatedWeibull: cdf, icdf, pdf and sampling call the same scipy family with one and the same parameter list (hence mutual consistency reduces to scipy's own cdf/ppf/pdf contract) *)
 Theorem C05_EW_one_map :
@@ -126,7 +126,7 @@ Theorem C05_EW_one_map :
        c_method (ExponentiatedWeibullDistribution_cdf RN s a b d) = "cdf" /\
        c_method (ExponentiatedWeibullDistribution_icdf RN s a b d) = "ppf" /\
        c_method (ExponentiatedWeibullDistribution_draw_sample RN s a b d) = "rvs".
-Proof. exact EW_same_map. Qed.
+Proof. exact (@EW_same_map). Qed.
 
 (* GeneralizedGamma: passing parameter values explicitly == an instance constructed with them (every subset, every method); the definitions are GENERATED from distributions.py *)
 Theorem C05_GG_override :
@@ -139,7 +139,7 @@ Theorem C05_GG_override :
        GeneralizedGammaDistribution_pdf RN (GG_with s m c l) None None None /\
        GeneralizedGammaDistribution_draw_sample RN s m c l =
        GeneralizedGammaDistribution_draw_sample RN (GG_with s m c l) None None None.
-Proof. exact GG_override. Qed.
+Proof. exact (@GG_override). Qed.
 
 (* GeneralizedGamma: cdf, icdf, pdf and sampling call the same scipy family with one and the same parameter list (hence mutual consistency reduces to scipy's own cdf/ppf/pdf contract) *)
 Theorem C05_GG_one_map :
@@ -161,7 +161,7 @@ Theorem C05_GG_one_map :
        c_method (GeneralizedGammaDistribution_icdf RN s m c l) = "ppf" /\
        c_method (GeneralizedGammaDistribution_pdf RN s m c l) = "pdf" /\
        c_method (GeneralizedGammaDistribution_draw_sample RN s m c l) = "rvs".
-Proof. exact GG_same_map. Qed.
+Proof. exact (@GG_same_map). Qed.
 
 (* VonMises: passing parameter values explicitly == an instance constructed with them (every subset, every method); the definitions are GENERATED from distributions.py *)
 Theorem C05_VM_override :
@@ -170,7 +170,7 @@ Theorem C05_VM_override :
        VonMisesDistribution_icdf s k m = VonMisesDistribution_icdf (VM_with s k m) None None /\
        VonMisesDistribution_pdf s k m = VonMisesDistribution_pdf (VM_with s k m) None None /\
        VonMisesDistribution_draw_sample s k m = VonMisesDistribution_draw_sample (VM_with s k m) None None.
-Proof. exact VM_override. Qed.
+Proof. exact (@VM_override). Qed.
 
 (* VonMises: cdf, icdf, pdf and sampling call the same scipy family with one and the same parameter list (hence mutual consistency reduces to scipy's own cdf/ppf/pdf contract) *)
 Theorem C05_VM_one_map :
@@ -188,7 +188,7 @@ Theorem C05_VM_one_map :
        c_method (VonMisesDistribution_icdf s k m) = "ppf" /\
        c_method (VonMisesDistribution_pdf s k m) = "pdf" /\
        c_method (VonMisesDistribution_draw_sample s k m) = "rvs".
-Proof. exact VM_same_map. Qed.
+Proof. exact (@VM_same_map). Qed.
 
 (* norm-fit log-normal: both parameters explicit == instance constructed with them *)
 Theorem C05_NF_override :
@@ -201,14 +201,14 @@ Theorem C05_NF_override :
        LogNormalNormFitDistribution_pdf RN (NF_with s m sg) None None /\
        LogNormalNormFitDistribution_draw_sample RN s (Some m) (Some sg) =
        LogNormalNormFitDistribution_draw_sample RN (NF_with s m sg) None None.
-Proof. exact NF_override. Qed.
+Proof. exact (@NF_override). Qed.
 
 (* norm-fit: passing only one of the two raises *)
 Theorem C05_NF_one_of_two_raises :
   forall (s : LogNormalNormFitDistribution) (m : R),
        LogNormalNormFitDistribution_cdf RN s (Some m) None = Err "RuntimeError" /\
        LogNormalNormFitDistribution_cdf RN s None (Some m) = Err "RuntimeError".
-Proof. exact NF_one_of_two_raises. Qed.
+Proof. exact (@NF_one_of_two_raises). Qed.
 
 (* norm-fit: one map for all four methods *)
 Theorem C05_NF_one_map :
@@ -261,7 +261,7 @@ Theorem C05_NF_one_map :
                 (LogNormalNormFitDistribution_calculate_mu RN (LogNormalNormFitDistribution_mu_norm s)
                    (LogNormalNormFitDistribution_sigma_norm s))]
          |}.
-Proof. exact NF_same_map. Qed.
+Proof. exact (@NF_same_map). Qed.
 
 (* norm-fit documented parameterisation: the mean of the log-normal is mu_norm *)
 Theorem C05_NF_mean :
@@ -271,7 +271,7 @@ Theorem C05_NF_mean :
        exp
          (LogNormalNormFitDistribution_calculate_mu RN mn sn +
           LogNormalNormFitDistribution_calculate_sigma RN mn sn ^ 2 / 2) = mn.
-Proof. exact NF_mean. Qed.
+Proof. exact (@NF_mean). Qed.
 
 (* norm-fit: the variance of the log-normal is sigma_norm^2 *)
 Theorem C05_NF_variance :
@@ -281,7 +281,7 @@ Theorem C05_NF_variance :
        let mu := LogNormalNormFitDistribution_calculate_mu RN mn sn in
        let s2 := LogNormalNormFitDistribution_calculate_sigma RN mn sn ^ 2 in
        (exp s2 - 1) * exp (2 * mu + s2) = sn ^ 2.
-Proof. exact NF_variance. Qed.
+Proof. exact (@NF_variance). Qed.
 
 (* documented formula F(x) = 1 - exp(-((x-gamma)/alpha)^beta), from the generated map and scipy's documented weibull_min cdf (hypothesis) *)
 Theorem C05_weibull_documented :
@@ -298,7 +298,7 @@ Theorem C05_weibull_documented :
          (-
           Rpower ((x - WeibullDistribution_gamma s) / WeibullDistribution_alpha s)
             (WeibullDistribution_beta s)).
-Proof. exact weibull_documented. Qed.
+Proof. exact (@weibull_documented). Qed.
 
 (* F(x) = [1 - exp(-(x/alpha)^beta)]^delta *)
 Theorem C05_exponweib_documented :
@@ -316,7 +316,7 @@ Theorem C05_exponweib_documented :
             (-
              Rpower (x / ExponentiatedWeibullDistribution_alpha s)
                (ExponentiatedWeibullDistribution_beta s))) (ExponentiatedWeibullDistribution_delta s).
-Proof. exact exponweib_documented. Qed.
+Proof. exact (@exponweib_documented). Qed.
 
 (* F(x) = Phi((ln x - mu)/sigma) *)
 Theorem C05_lognormal_documented :
@@ -329,7 +329,7 @@ Theorem C05_lognormal_documented :
        0 < x ->
        eval sts (LogNormalDistribution_cdf RN s None None) x =
        Phi ((ln x - LogNormalDistribution_mu s) / LogNormalDistribution_sigma s).
-Proof. exact lognormal_documented. Qed.
+Proof. exact (@lognormal_documented). Qed.
 
 (* F(x) = Phi((x - mu)/sigma) *)
 Theorem C05_normal_documented :
@@ -340,7 +340,7 @@ Theorem C05_normal_documented :
        forall (s : NormalDistribution) (x : R),
        eval sts (NormalDistribution_cdf s None None) x =
        Phi ((x - NormalDistribution_mu s) / NormalDistribution_sigma s).
-Proof. exact normal_documented. Qed.
+Proof. exact (@normal_documented). Qed.
 
 (* F(x) = F0(lambda x; m, c) (Ochi) *)
 Theorem C05_gengamma_documented :
@@ -353,7 +353,7 @@ Theorem C05_gengamma_documented :
        eval sts (GeneralizedGammaDistribution_cdf RN s None None None) x =
        F0_gg (GeneralizedGammaDistribution_lambda_ s * x) (GeneralizedGammaDistribution_m s)
          (GeneralizedGammaDistribution_c s).
-Proof. exact gengamma_documented. Qed.
+Proof. exact (@gengamma_documented). Qed.
 
 (* F(x) = F0(x - mu; kappa) *)
 Theorem C05_vonmises_documented :
@@ -364,13 +364,13 @@ Theorem C05_vonmises_documented :
        forall (s : VonMisesDistribution) (x : R),
        eval sts (VonMisesDistribution_cdf s None None) x =
        F0_vm (x - VonMisesDistribution_mu s) (VonMisesDistribution_kappa s).
-Proof. exact vonmises_documented. Qed.
+Proof. exact (@vonmises_documented). Qed.
 
 (* exponentiated Weibull pdf is zero outside the support (hand model of the guard, tied by correspondence) *)
 Theorem C05_EW_pdf_zero_outside :
   forall (sts : call R -> R -> R) (s : ExponentiatedWeibullDistribution) (x : R) (a b d : option R),
        x <= 0 -> EW_pdf RN sts s x a b d = 0.
-Proof. exact EW_pdf_zero_outside. Qed.
+Proof. exact (@EW_pdf_zero_outside). Qed.
 
 (* ... and inside the support uses the same parameter list as cdf *)
 Theorem C05_EW_pdf_inside :
@@ -383,7 +383,7 @@ Theorem C05_EW_pdf_inside :
            c_method := "pdf";
            c_params := c_params (ExponentiatedWeibullDistribution_cdf RN s a b d)
          |} x.
-Proof. exact EW_pdf_inside. Qed.
+Proof. exact (@EW_pdf_inside). Qed.
 
 (* icdf(cdf(x)) = x: same parameter list, scipy's contract *)
 Theorem C05_icdf_cdf :
@@ -394,7 +394,7 @@ Theorem C05_icdf_cdf :
        forall x : R,
        sts {| c_family := fam; c_method := "ppf"; c_params := ps |}
          (sts {| c_family := fam; c_method := "cdf"; c_params := ps |} x) = x.
-Proof. exact icdf_cdf_roundtrip. Qed.
+Proof. exact (@icdf_cdf_roundtrip). Qed.
 
 (* cdf(icdf(p)) = p *)
 Theorem C05_cdf_icdf :
@@ -407,7 +407,7 @@ Theorem C05_cdf_icdf :
        0 < p < 1 ->
        sts {| c_family := fam; c_method := "cdf"; c_params := ps |}
          (sts {| c_family := fam; c_method := "ppf"; c_params := ps |} p) = p.
-Proof. exact cdf_icdf_roundtrip. Qed.
+Proof. exact (@cdf_icdf_roundtrip). Qed.
 
 (* non-vacuity: a concrete instance and override *)
 Example C05_nonvacuous :
